@@ -141,15 +141,15 @@ Qed.
 Definition base_closed : list res := [RToken; RTun; RUdp; RCtx].
 
 Inductive form (c : cfg) : lst -> Prop :=
-| F_ready n : form c (mkL c SReady [] (opens c PMain) (spawn c PMain) n)
-| F_started n : form c (mkL c SStarted [] (opens c PMain ++ opens c PStart) (spawn c PMain ++ spawn c PStart) n)
-| F_stopping n : form c (mkL c SStopping [RCtx] (opens c PMain ++ opens c PStart) (spawn c PMain ++ spawn c PStart) n)
-| F_stopped_started n : form c (mkL c SStopped base_closed (opens c PMain ++ opens c PStart) (spawn c PMain ++ spawn c PStart) n)
-| F_stopped_early n : form c (mkL c SStopped base_closed (opens c PMain) (spawn c PMain) n).
+| F_ready n f : form c (mkL c SReady [] (opens c PMain) (spawn c PMain) n f)
+| F_started n f : form c (mkL c SStarted [] (opens c PMain ++ opens c PStart) (spawn c PMain ++ spawn c PStart) n f)
+| F_stopping n f : form c (mkL c SStopping [RCtx] (opens c PMain ++ opens c PStart) (spawn c PMain ++ spawn c PStart) n f)
+| F_stopped_started n f : form c (mkL c SStopped base_closed (opens c PMain ++ opens c PStart) (spawn c PMain ++ spawn c PStart) n f)
+| F_stopped_early n f : form c (mkL c SStopped base_closed (opens c PMain) (spawn c PMain) n f).
 
 Lemma form_step c s o : form c s -> form c (step s o).
 Proof.
-  intro F. destruct F; destruct o as [[|]| | | | |]; simpl; try constructor.
+  intro F. destruct F as [n f|n f|n f|n f|n f]; destruct o as [[|]| | | | |]; simpl; try constructor; destruct f; simpl; constructor.
 Qed.
 
 Lemma form_run c ops s : form c s -> form c (run s ops).
@@ -212,13 +212,17 @@ Proof.
     apply (released_stopped c); [now apply form_step|exact St].
 Qed.
 
-(* a second Stop changes nothing, neither does a Start or a rebind after Stop *)
+(* a second Stop changes nothing; no operation after Stop reopens, restarts or re-closes anything *)
 Lemma stop_idempotent c ops o :
   let s := run (ready c) ops in
-  l_state s = SStopped -> step s o = s.
+  l_state s = SStopped ->
+  step s OStop = s /\
+  l_state (step s o) = SStopped /\ l_closed (step s o) = l_closed s /\ l_acts (step s o) = l_acts s /\
+  l_opened (step s o) = l_opened s /\ l_rebinds (step s o) = l_rebinds s.
 Proof.
   intros s St. pose proof (form_reachable c ops) as F. fold s in F.
-  destruct F; simpl in St; try discriminate; destruct o as [[|]| | | | |]; reflexivity.
+  destruct F as [n f|n f|n f|n f|n f]; simpl in St; try discriminate; (split; [reflexivity|]);
+    destruct o as [[|]| | | | |]; try destruct f; simpl; auto.
 Qed.
 
 Lemma stop_twice c ops : let s := run (ready c) ops in step (step s OStop) OStop = step s OStop.
